@@ -219,9 +219,29 @@ func (b *Built) bind(id int, c store.Cursor) {
 func (b *Built) correlate(root store.Cursor) {
 	d := b.Doc
 	kids := d.childLists()
+	// positions: unique, and strictly increasing along the walk (an element, its namespace nodes as the tree lists
+	// them, its attributes, its children); every listed node names the listing node as its parent
+	lastPos, first := 0, true
+	posOwner := map[int]int{}
 	var walk func(id int, c store.Cursor)
 	walk = func(id int, c store.Cursor) {
 		b.bind(id, c)
+		if o, dup := posOwner[c.Pos()]; dup && o != id {
+			b.fault("nodes %d and %d share position %d", o, id, c.Pos())
+		} else {
+			posOwner[c.Pos()] = id
+		}
+		if !first && c.Pos() <= lastPos {
+			b.fault("node %d: position %d is not greater than the position %d of the node before it in document order", id, c.Pos(), lastPos)
+		}
+		lastPos, first = c.Pos(), false
+		for _, lst := range [][]store.Cursor{c.Namespaces(), c.Attributes(), c.Children()} {
+			for _, x := range lst {
+				if x.Parent() != c {
+					b.fault("node %d: a node it lists (position %d) has another parent", id, x.Pos())
+				}
+			}
+		}
 		nd := d[id-1]
 		if !nodeMatches(nd, c.Node()) {
 			b.fault("node %d: real node %T%v does not match abstract %s", id, c.Node(), c.Node(), nd.K)
